@@ -399,13 +399,19 @@ def d9_reference_window(facts, rep):
     (Base-class constructors that reserve are paired with their destructor by the language; windows inside a
     try_call(...).on_exception(...) body are separate functions whose handler is checked by the idiom rule.)"""
     from rules.common import MayThrow
-    mt = MayThrow(facts)
+    # only what is certainly user code or an explicit throw / allocation counts here (ITT hooks and r1 entry points without a
+    # body are not evidence of a throw in the window)
+    mt = MayThrow(facts, external_may_throw=False)
     seen = set()
     n = 0
     for fn in facts.fns.values():
         if not fn.q.startswith('tbb::detail::'):
             continue
         rs = [c for c in calls_named(fn, ('reserve',)) if (c[3].get('cls') or '').split('::')[-1] in WAIT_CLASSES]
+        # references taken for the waiters of a message (preview try_put_and_wait: message_metainfo::waiters()) are handed over
+        # by storing the metainfo next to the buffered item, not by spawning a task: a different protocol, not covered here
+        if rs and (calls_named(fn, ('waiters',)) or (fn.cls or '').endswith('trackable_messages_graph_task')):
+            continue
         for pos, s, node, d in rs:
             key = (fn.p, fn.file, node['ln'])
             reached, ex, par = fn.walk(pos, stop_elem=lambda p, e: isinstance(e, int) and fn.nodes[e].get('k') == 'call' and
